@@ -29,6 +29,7 @@ class State:
         self.active = False       # record fs events
         self.crash_at = None      # countdown of mutating events until crash
         self.crash_tear = None
+        self.crash_when = 'before'
         self.err_at = None
         self.err_no = None
         self.last_wopen = None
@@ -83,6 +84,21 @@ def _mutating(kind, path, extra=None):
     rel = path[len(ST.store):]
     if ST.crash_at is not None:
         if ST.crash_at == 0:
+            if ST.crash_when == 'after':
+                # die immediately AFTER this operation has been performed: the first C-function return seen by the
+                # profiler is the return of the audited call itself (python buffers of open files are lost, as in a kill)
+                ST.crash_at = None
+                ST.fs.append([kind, rel] if extra is None else [kind, rel, extra])
+                at = [kind, rel, 'after']
+                lw = rel if kind == 'wopen' else None
+
+                def _die(frame, event, arg):
+                    if event in ('c_return', 'c_exception'):
+                        sys.setprofile(None)
+                        _emit({'crash': True, 'at': at, 'last_wopen': lw, 'inv': ST.inv, 'fs': ST.fs, 'fired': ST.fired})
+                        os._exit(CRASH_EXIT)
+                sys.setprofile(_die)
+                return
             _emit({'crash': True, 'at': [kind, rel], 'last_wopen': ST.last_wopen, 'inv': ST.inv, 'fs': ST.fs, 'fired': ST.fired})
             os._exit(CRASH_EXIT)
         ST.crash_at -= 1
@@ -770,6 +786,7 @@ class Proc:
             d = {'obj': self.token(t), 'tfull': t.fullname, 'slug': t.slugname, 'forced': t.is_forced, 'dc': t.data_class.__name__}
             try:
                 d['key'] = t.name_for_persistence
+                d['prepr'] = str(t.params.repr)[:400]
             except Exception as e:
                 d['key_err'] = [type(e).__name__, str(e)[:200]]
             d['inputs'] = {n: (self.token(x) if hasattr(x, 'fullname') else None) for n, x in t.input_tasks.items()}
@@ -1048,6 +1065,7 @@ def run_process(job, out_fd):
         ST.last_wopen = None
         c = op.get('crash')
         ST.crash_at = c['k'] if c else None
+        ST.crash_when = (c or {}).get('when', 'before')
         e = op.get('diskerr')
         ST.err_at = e['k'] if e else None
         ST.err_no = getattr(errno, e['errno']) if e else None
@@ -1059,6 +1077,7 @@ def run_process(job, out_fd):
             res = {'harness_error': traceback.format_exc()[-1500:]}
         ST.active = False
         ST.crash_at = None
+        sys.setprofile(None)
         ST.err_at = None
         _emit({'i': op['i'], 'res': res, 'inv': ST.inv, 'fs': ST.fs, 'fired': ST.fired, 'clock': [clock0, ST.clock.base + ST.clock.ticks]})
     if cover is not None:
